@@ -393,7 +393,8 @@ func (w *World) EnvEditContent(k Key, tag string) bool {
 				spec = map[string]any{}
 				m["spec"] = spec
 			}
-			spec["drift"] = tag
+			// drift on a field PKO manages (server-side apply leaves other managers' extra fields alone)
+			spec["size"] = int64(900 + len(tag))
 		}
 	})
 }
@@ -457,6 +458,9 @@ func (w *World) Reset(name string) {
 	w.SetForceAdoption(false)
 	w.BuildControllers()
 	w.Emit(Event{Actor: "sim", Ev: "Reset", Key: "-", Args: map[string]any{"scenario": name}})
+	// the namespaces every scenario lives in
+	w.EnvCreate(Obj(gvkNamespace, "", NS))
+	w.EnvCreate(Obj(gvkNamespace, "", "other"))
 }
 
 // EnvSyncCache ends the create-not-yet-visible window.
